@@ -75,6 +75,8 @@ def o_tuple(args, c):
         return "fault=" + c["fault"]
     if int(c["cmp"]) != _sgn(xs, ys):
         return "memcmp sign %s of concatenated keys but tuple order %d" % (c["cmp"], _sgn(xs, ys))
+    if c.get("rev") != "same":
+        return "the key's bytes depend on the order in which its fields are written (a field's encoder wrote outside its own bytes)"
     return None
 
 
@@ -138,6 +140,11 @@ def ref_get(bs):
     if n == 3:
         return 3, 2288 + 256 * a[1] + a[2]
     return n, int.from_bytes(bytes(a[1:n]), "big")
+
+
+def _both(a, b):
+    yield from a
+    yield from b
 
 
 def _values(rng, n_rand):
@@ -247,6 +254,52 @@ def generate_c04(rng, tier):
 
 
 def o_len_mono_pairs(args, c):
+    return None
+
+
+# ---------------------------------------------------------------- exact-size destinations (all scalar put functions)
+
+def _ext_need(x):
+    return max(1, (x.bit_length() + 7) // 8)
+
+
+def _chained_need(x):
+    return 9 if x >= (1 << 56) else max(1, (x.bit_length() + 6) // 7)
+
+
+def generate_frame(rng, tier):
+    """every scalar encoder writing into a destination of exactly the bytes it needs,
+    flush against an inaccessible page (drv_frame.c)"""
+    n = 600 if tier == "quick" else 20000
+    vals = list(_pool(rng)) + [rand_u64(rng) for _ in range(n)]
+    for x in vals:
+        yield "frame_put tagged %d %d" % (x, len(ref_put(x)))
+        yield "frame_put ext %d %d" % (x, _ext_need(x))
+        yield "frame_put extbe %d %d" % (x, _ext_need(x))
+        yield "frame_put chained %d %d" % (x, _chained_need(x))
+        yield "frame_put csimple %d %d" % (x, _chained_need(x))
+        for w in range(_ext_need(x), 9):
+            if w == _ext_need(x) or rng.random() < 0.3:
+                yield "frame_put ext_fixed %d %d" % (x, w)
+                yield "frame_put extbe_fixed %d %d" % (x, w)
+        for w in range(1, 10):
+            if _legal_fixed(x, w) and (w == len(ref_put(x)) or rng.random() < 0.3):
+                yield "frame_put tagged_fixed %d %d" % (x, w)
+
+
+def o_frame(args, c):
+    fam, x, w = args[0], int(args[1]), int(args[2])
+    if "fault" in c:
+        return "%s encoder accessed memory beyond the %d bytes of its encoding (fault=%s)" % (fam, w, c["fault"])
+    if int(c["w"]) != w:
+        return "%s encoder reported %s bytes for a value/width that needs %d" % (fam, c["w"], w)
+    return None
+
+
+def classify_frame(case, m):
+    t = case.split()
+    if t[0] == "frame_put":
+        return "frame-%s-w%s" % (t[1], t[3])
     return None
 
 
@@ -376,11 +429,13 @@ def classify_getn(case, m):
 
 
 PARTS = {
-    "C01": dict(coq_props=["Properties_C01_tagged"], files=FILES, generate=generate_rt,
+    "C01": dict(coq_props=["Properties_C01_tagged"], files=FILES,
+                generate=lambda rng, tier: (yield from _both(generate_rt(rng, tier), generate_frame(rng, tier))),
                 rule="tagged: every boundary/literal value +-2 and random bit-lengths through put/get/len/getlen and all "
                      "quick/32-bit forms at random alignments; fixed-width writer for widths 0..10 on the pool; "
                      "non-trivial = classes rt-len2..9 and legal fixed widths",
-                oracles={"tagged_rt": o_rt, "tagged_fixed": o_fixed}, classify=classify_rt, search=search_rt,
+                oracles={"tagged_rt": o_rt, "tagged_fixed": o_fixed, "frame_put": o_frame},
+                classify=lambda case, m: classify_frame(case, m) or classify_rt(case, m), search=search_rt,
                 configs_quick=["pinned", "O0"]),
     "C04": dict(coq_props=["Properties_C04_tagged", "Properties_C04_readme"], files=FILES, generate=generate_c04,
                 rule="tagged: encoder bytes vs an independent Python reference of the documented sqlite4 format",
